@@ -75,6 +75,9 @@ func (a modeSnap) diff(b modeSnap) string {
 func (w *dw) restored(call string, pristine modeSnap, pushedTitle bool) {
 	t := w.T
 	bad := func(reg, format string, args ...interface{}) {
+		if w.exempt[reg] {
+			return
+		}
 		w.fail("C04/mode:"+reg, "after %s returned: "+format, append([]interface{}{call}, args...)...)
 	}
 	if len(t.Errors) > 0 {
@@ -141,7 +144,7 @@ func (w *dw) contract(finished bool) {
 	closed := false
 	var cbSet bool
 	for _, c := range w.Tty.Log {
-		lib := c.G != "app"
+		lib := c.G != "app" && c.G != "app2"
 		rule := func(r, format string, args ...interface{}) {
 			w.fail("C04/tty-order:"+r, "tty call #%d %s by %s: "+format, append([]interface{}{c.At, c.Kind, c.G}, args...)...)
 		}
@@ -196,7 +199,7 @@ func (w *dw) contract(finished bool) {
 			if !started && lib {
 				rule("io-after-stop", "library goroutine does I/O while the tty is stopped")
 			}
-			if !started && c.Kind == "Write" && !lib && w.inCall == "" && !w.allowAppIO {
+			if !started && c.Kind == "Write" && c.G == "app" && w.inCall == "" && !w.allowAppIO {
 				rule("io-after-stop", "write while the tty is stopped")
 			}
 		}
@@ -247,6 +250,19 @@ func runC04(t *rapid.T) {
 		ops = append(ops, o)
 	}
 	ending := rapid.SampledFrom([]string{"fini", "fini", "suspend"}).Draw(t, "ending")
+	// a second application goroutine that changes modes while the final
+	// Fini/Suspend is in progress
+	var conc []lop4
+	if rapid.IntRange(0, 2).Draw(t, "concurrent") == 0 {
+		nc := rapid.IntRange(1, 3).Draw(t, "nconc")
+		for i := 0; i < nc; i++ {
+			co := lop4{Kind: rapid.SampledFrom([]string{"mouse", "paste", "focus", "curstyle", "title"}).Draw(t, "concop")}
+			co.Flags = rapid.IntRange(1, 7).Draw(t, "concflags")
+			co.CS = rapid.IntRange(1, 6).Draw(t, "conccs")
+			co.Title = "concurrent-title"
+			conc = append(conc, co)
+		}
+	}
 	ns := rapid.IntRange(0, 8).Draw(t, "nstim")
 	var stims []stim4
 	for i := 0; i < ns; i++ {
@@ -265,7 +281,7 @@ func runC04(t *rapid.T) {
 	w.T = vt.New(cfg.W, cfg.H, nil)
 	w.T.Title = "user-shell"
 	pristine := snap(w.T)
-	w.S.Note(hx.Fingerprint(cfg, ops, ending, stims, readErr))
+	w.S.Note(hx.Fingerprint(cfg, ops, ending, stims, readErr, conc))
 	if readErr {
 		w.Tty.ReadErr = hx.ErrInjected
 		w.Tty.ErrAfter = 3
@@ -273,6 +289,12 @@ func runC04(t *rapid.T) {
 	s := w.S
 	finished, suspended := false, false
 	pushed := false
+	// endingNow: the final Fini/Suspend is in progress; app2In: the second
+	// goroutine is inside a screen call (which may then complete after the
+	// final call has returned: its effect is the application's own doing)
+	endingNow, endingDone, app2In, app2Late := false, false, false, false
+	var app2Kinds []string
+	var apply2 func(o lop4)
 	s.Spawn("app", func() {
 		sc := w.Scr
 		if err := sc.Init(); err != nil {
@@ -452,15 +474,75 @@ func runC04(t *rapid.T) {
 				}
 			}
 		}
+		apply2 = apply
+		// lateCall: a concurrent call linearizes before or after the final
+		// call.  What decides is the tty: bytes the second goroutine wrote
+		// before Stop belong to the running screen and must have been
+		// undone; bytes it wrote after Stop (on the stopped tty, like any
+		// call made while suspended) are the application's own doing.  A
+		// call still in progress when the final call returned is awaited
+		// first.  Fini closes the tty: no call made after it can reach the
+		// terminal, so nothing is exempt there.
+		lateCall := func() {
+			if app2In {
+				app2Late, w.allowAppIO = true, true
+				simrt.Wait("late-call", func() bool { return !app2In })
+			}
+			w.exempt = map[string]bool{}
+			stopAt := -1
+			for i, c := range w.Tty.Log {
+				if c.Kind == "Stop" {
+					stopAt = i
+				}
+			}
+			for i, c := range w.Tty.Log {
+				if ending != "fini" && i > stopAt && stopAt >= 0 && c.Kind == "Write" && c.G == "app2" && !c.Err {
+					w.allowAppIO = true
+					for _, k := range app2Kinds {
+						for _, r := range map[string][]string{"mouse": {"mouse"}, "paste": {"paste"}, "focus": {"focus"},
+							"curstyle": {"cursor-style", "cursor-colour"}, "title": {"title"}}[k] {
+							w.exempt[r] = true
+						}
+					}
+				}
+			}
+		}
+		endingNow = true
 		if ending == "fini" {
 			w.inCall = "fini"
 			sc.Fini()
 			w.inCall = ""
+			endingNow, endingDone = false, true
 			finished = true
+			lateCall()
 			w.restored("Fini", pristine, pushed)
 			w.contract(true)
 		} else {
-			suspended = doSuspend("final")
+			w.inCall = "suspend"
+			_ = sc.Suspend()
+			w.inCall = ""
+			endingNow, endingDone = false, true
+			lateCall()
+			w.restored("Suspend (final)", pristine, pushed)
+			w.contract(false)
+			suspended = w.Fail == nil
+		}
+	})
+	s.Spawn("app2", func() {
+		if len(conc) == 0 {
+			return
+		}
+		simrt.Wait("wait-ending", func() bool { return endingNow || endingDone || (w.inited && w.initErr != nil) || s.Find("app").Done() })
+		for _, co := range conc {
+			if !endingNow {
+				return // the call has returned: a later mode change is a sequential call on a stopped screen
+			}
+			app2In = true
+			app2Kinds = append(app2Kinds, co.Kind)
+			apply2(co)
+			app2In = false
+			w.Tty.Faults.Inc("concurrent_mode_call")
+			simrt.Yield("app2")
 		}
 	})
 	s.Spawn("poller", func() {
@@ -502,6 +584,9 @@ func runC04(t *rapid.T) {
 	}
 	for _, pn := range w.Panics() {
 		w.fail("C04/panic", "panic: %s", pn)
+	}
+	if app2Late {
+		hx.St.Probe("concurrent_mode_call_outlived_the_final_call", 1)
 	}
 	hx.St.Record(s, w.Tty.Faults.Map(), func() interface{} {
 		var os []string
